@@ -66,6 +66,17 @@ def monitor(run):
                            f'operator boundaries at {sorted(bnd)}')
         for x in e['results']:
             res_cids.add(x['cid'])
+        # exactly the allocation is freed: free + allocated(running, suspending) = capacity after every tick
+        for pi, p in enumerate(e['pools']):
+            livec = p['active'] + p['suspending']
+            if p['avail_cpu'] + sum(c['cpu'] for c in livec) != p['max_cpu'] or \
+                    F(p['avail_ram']) + sum(F(c['ram']) for c in livec) != F(p['max_ram']):
+                yield (f'tick {t} pool {pi}: after suspensions ended the pool has {p["avail_cpu"]} CPUs / {p["avail_ram"]} GB '
+                       f'free with {sum(c["cpu"] for c in livec)} CPUs / {float(sum(F(c["ram"]) for c in livec))} GB allocated, '
+                       f'capacity {p["max_cpu"]} / {p["max_ram"]}')
+            for c in p['suspending']:
+                if c['left'] is not None and c['left'] <= 0:
+                    yield f'tick {t} pool {pi}: container {c["cid"]} finished suspending but was not released'
         for (cid, pool) in cmds:
             if 0 <= pool < r['npools']:
                 susp_at[cid] = t
@@ -142,6 +153,7 @@ def gen_sweep(rng, i):
 def run(ctx):
     out = P.run_property(ctx, MASK, monitor, 'suspension', [
         ('G-exec', 200, 3000, dict(p_bad=0.4)),
+        ('G-exec-twins', 80, 1200, dict(twins=True)),
     ], nontrivial=lambda run: any(e['cmd']['susp'] for e in run.trace))
     import collections
     st = collections.Counter(out['dist'])
